@@ -188,6 +188,7 @@ func rewriteFile(rel string, src []byte, doFS, doSync bool) (out []byte, nfs, ns
 		}
 	}
 	osLeft, syncLeft, filepathLeft, globbed := false, false, false, false
+	nloops := 0
 	var ferr error
 	ast.Inspect(f, func(n ast.Node) bool {
 		sel, ok := n.(*ast.SelectorExpr)
@@ -237,7 +238,24 @@ func rewriteFile(rel string, src []byte, doFS, doSync bool) (out []byte, nfs, ns
 	if ferr != nil {
 		return nil, 0, 0, ferr
 	}
-	if nfs == 0 && nsync == 0 {
+	if doSync {
+		// a scheduling point at the top of every bare `for { ... }` loop (event loops)
+		ast.Inspect(f, func(n ast.Node) bool {
+			fs, ok := n.(*ast.ForStmt)
+			if !ok || fs.Init != nil || fs.Cond != nil || fs.Post != nil {
+				return true
+			}
+			pos := fset.Position(fs.Pos())
+			call := &ast.ExprStmt{X: &ast.CallExpr{
+				Fun:  &ast.SelectorExpr{X: ast.NewIdent("simsync"), Sel: ast.NewIdent("Loop")},
+				Args: []ast.Expr{&ast.BasicLit{Kind: token.STRING, Value: strconv.Quote(fmt.Sprintf("loop %s:%d", filepath.Base(rel), pos.Line))}},
+			}}
+			fs.Body.List = append([]ast.Stmt{call}, fs.Body.List...)
+			nloops++
+			return true
+		})
+	}
+	if nfs == 0 && nsync == 0 && nloops == 0 {
 		return nil, 0, 0, nil
 	}
 	fix := func(pkgPath string, stillUsed bool, newPath string) {
@@ -267,7 +285,10 @@ func rewriteFile(rel string, src []byte, doFS, doSync bool) (out []byte, nfs, ns
 	}
 	if nsync > 0 {
 		fix("sync", syncLeft, "verif/simsync")
+	} else if nloops > 0 {
+		addImport(f, "verif/simsync")
 	}
+	nsync += nloops
 	var buf bytes.Buffer
 	if err := format.Node(&buf, fset, f); err != nil {
 		return nil, 0, 0, fmt.Errorf("print %s: %w", rel, err)
